@@ -9,12 +9,12 @@ META = {
             'selection with symbolic channels (printers replaced by taggers); C05-d: colour forms end to end.',
     'bounds': {
         'quick': '5 properties (unit-taking and unitless) x 1 value x 9 number shapes x 8 units, with/without !; padding and line-height with '
-                 '<=2 values; intUnit/floatUnit any 2 lowercase letters (1 letter in the per-syntax jobs); 5 syntaxes; +-joined pair; every channel value 0..255; symbolic r,g,b in 0..255 x alpha {0,.5,1} x '
+                 '<=2 values; 13 wide / zero-spelled numbers (7+ digits, `0.`, `.0`, `00`, `007`) x 8 units on padding and line-height; intUnit/floatUnit any 2 lowercase letters (1 letter in the per-syntax jobs); 5 syntaxes; +-joined pair; every channel value 0..255; symbolic r,g,b in 0..255 x alpha {0,.5,1} x '
                  'shortHex; 20 colour forms x shortHex',
         'thorough': 'all 5 properties with <=2 values, padding and line-height with <=3 values',
     },
     'outside_claim': ['functions/gradients, keywords (C06), stylesheet.json', '4- and 5-digit colours (undocumented)',
-                      'numerals outside the 9 shapes (floats are concrete: symbolic floats make z3 answer unknown)',
+                      'numerals outside the 9+13 shapes (floats are concrete: symbolic floats make z3 answer unknown)',
                       'character-level tokenization with symbolic characters is covered for tiling/robustness by C18/C07, not for meaning'],
     'stubs': ['C05-c: color.to_hex / to_short_hex replaced by tag-returning stubs (their real bodies are checked exhaustively in C05-b)',
               'tokenization of the (per path concrete) abbreviation runs outside the tracer; snippet table converted outside the tracer and '
@@ -24,6 +24,10 @@ META = {
 PROPS = [('p', 'padding', False), ('m', 'margin', False), ('lh', 'line-height', True), ('z', 'z-index', True), ('w', 'width', False)]
 SHAPES = ['10', '5', '0', '-10', '.5', '1.', '1.25', '-.5', '100']
 PRINT = {'10': '10', '5': '5', '0': '0', '-10': '-10', '.5': '0.5', '1.': '1', '1.25': '1.25', '-.5': '-0.5', '100': '100'}
+# numbers with more than six significant digits, and zero written in other ways than `0`
+WIDE = ['1000000', '9999999', '1234.5678', '123456.5', '12345678', '-1000000.5', '99999.5', '0.', '.0', '0.0', '00', '.00', '007']
+PRINT.update({'1000000': '1000000', '9999999': '9999999', '1234.5678': '1234.5678', '123456.5': '123456.5', '12345678': '12345678',
+              '-1000000.5': '-1000000.5', '99999.5': '99999.5', '0.': '0', '.0': '0', '0.0': '0', '00': '0', '.00': '0', '007': '7'})
 UNITS = ['', 'p', 'e', 'x', 'r', 'px', '%', 'vh']
 ALIAS = {'p': '%', 'e': 'em', 'x': 'ex', 'r': 'rem'}
 SYNTAX = {'css': (': ', ';'), 'scss': (': ', ';'), 'less': (': ', ';'), 'sass': (': ', ''), 'stylus': (' ', '')}
@@ -58,11 +62,12 @@ def expected_value(shape, unit, unitless, int_unit, float_unit):
     return [num, int_unit]
 
 
-def mk_values(pi, K, syntax, important, ulen=2, s1fix=None):
+def mk_values(pi, K, syntax, important, ulen=2, s1fix=None, wide=False):
     import emmet
     from vf.pipe import make_css_config, Recorder, rope_eq, expand_concrete_tokens
     key, prop, unitless = PROPS[pi]
     between, after = SYNTAX[syntax]
+    SHAPES = WIDE if wide else globals()['SHAPES']
 
     def run(sel, iu, fu, wrong):
         if s1fix is not None and sel[0][0] != s1fix:
@@ -283,6 +288,9 @@ def jobs(tier):
                 out.append(Job('C05-a/values/%s/K=%d,css,s1=%d' % (PROPS[pi][0], K, s1), 'vf.props.c05:mk_values',
                                dict(pi=pi, K=K, syntax='css', important=False, ulen=2 if K == 2 else 1, s1fix=s1), shape='H',
                                bound='<=%d values' % K, budget=2400 if K == 2 else 12000, weight=2000 if K == 2 else 50000))
+    for pi in (0, 2):
+        out.append(Job('C05-a/wide-numbers/%s' % PROPS[pi][0], 'vf.props.c05:mk_values', dict(pi=pi, K=1, syntax='css', important=False, ulen=1, wide=True),
+                       shape='H', bound='1 value from 13 wide/zero shapes', budget=900, weight=120))
     for syn in ('scss', 'sass', 'less', 'stylus'):
         out.append(Job('C05-a/values/p/K=1,%s' % syn, 'vf.props.c05:mk_values', dict(pi=0, K=1, syntax=syn, important=True, ulen=1), shape='H',
                        bound='1 value', budget=900, weight=100))
